@@ -2,6 +2,7 @@ import Feox.Proto.Dur
 import Feox.Proto.Disk
 import Feox.Proto.Shards
 import Feox.Proto.Txn
+import Feox.Props.C05Acc
 /-! Line-protocol front end for the `Proto` acceptors (trace validation). -/
 namespace Feox.Drv.ProtoDrv
 open Feox.Proto
@@ -68,6 +69,39 @@ def handleTxn (s : TxnSt) (args : List String) : Option (TxnSt × String) :=
         | none =>
           let why := s!"jdur={s.st.jdur} jpend={s.st.jpend} unsynced-data-writes={s.st.pend.length}"
           some ({ s with dead := true }, s!"reject ({why})")
+
+/-- allocation / publication / release events of a running store on the `Space` model
+(`C05.accept`): `space new <device bytes>`, `space a|p|r <start> <blocks>`, `space free` (the
+model's free runs, to be compared with the store's) -/
+structure SpaceSt where
+  sp : Option C05.Space := none
+  dead : Bool := false
+
+def handleSpace (s : SpaceSt) (args : List String) : Option (SpaceSt × String) :=
+  match args with
+  | ["new", dev] => do
+    let dev ← dev.toNat?
+    match Fsm.initDevice Fsm.new dev with
+    | .ok f => pure ({ sp := some { fsm := f } }, "ok")
+    | .error _ => pure ({ sp := none, dead := true }, "ok")
+  | ["free"] =>
+    match s.sp with
+    | some sp => if s.dead then some (s, "ok -") else some (s, "ok " ++ " ".intercalate (sp.fsm.runs.map fun r => s!"{r.start}+{r.size}"))
+    | none => some (s, "ok -")
+  | [k, a, n] => do
+    let a ← a.toNat?; let n ← n.toNat?
+    let ev ← (match k with | "a" => some (C05.SEv.alloc a n) | "p" => some (.publish a n) | "r" => some (.release a n) | _ => none)
+    if s.dead then pure (s, "ok")
+    else match s.sp with
+      | none => pure (s, "ok")
+      | some sp =>
+        match C05.accept sp ev with
+        | some sp' => pure ({ s with sp := some sp' }, "ok")
+        | none =>
+          let held := " ".intercalate (sp.held.map fun e => s!"{e.1}+{e.2}")
+          let owned := " ".intercalate (sp.owned.map fun e => s!"{e.1}+{e.2}")
+          pure ({ s with dead := true }, s!"reject (held: {held}; owned: {owned}; free: " ++ " ".intercalate (sp.fsm.runs.map fun r => s!"{r.start}+{r.size}") ++ ")")
+  | _ => none
 
 /-- `shards W S count…` : which workers a tick must wake -/
 def handleShards (args : List String) : Option String :=
